@@ -246,4 +246,3 @@ func graphAllow(name, via string, path []string) (string, bool) {
 	}
 	return "", false
 }
-
